@@ -134,6 +134,76 @@ func hmShape(fd *ast.FuncDecl) string {
 	return "other"
 }
 
+// wgShape records how bar_wait_group.go's methods use the mutex and the condition variable: the condition of the loop
+// around cond.Wait, the condition under which Add broadcasts, and whether each method body begins by locking the mutex.
+// The receiver's name is normalised to g.
+func wgShape(fd *ast.FuncDecl, consts map[string]string) {
+	rn := "g"
+	if len(fd.Recv.List) > 0 && len(fd.Recv.List[0].Names) > 0 {
+		rn = fd.Recv.List[0].Names[0].Name
+	}
+	norm := func(n ast.Node) string {
+		t := text(n)
+		if rn != "g" {
+			t = strings.ReplaceAll(" "+t, " "+rn+".", " g.")
+			t = strings.ReplaceAll(t, "("+rn+".", "(g.")
+			t = strings.ReplaceAll(t, "!"+rn+".", "!g.")
+			t = strings.TrimSpace(t)
+		}
+		return t
+	}
+	name := fd.Name.Name
+	if len(fd.Body.List) > 0 {
+		consts["wg_"+name+"_first"] = norm(fd.Body.List[0])
+	}
+	var stack []ast.Node
+	ast.Inspect(fd.Body, func(n ast.Node) bool {
+		if n == nil {
+			stack = stack[:len(stack)-1]
+			return true
+		}
+		stack = append(stack, n)
+		call, ok := n.(*ast.CallExpr)
+		if !ok {
+			return true
+		}
+		sel, ok := call.Fun.(*ast.SelectorExpr)
+		if !ok {
+			return true
+		}
+		if sel.Sel.Name != "Wait" && sel.Sel.Name != "Broadcast" && sel.Sel.Name != "Signal" {
+			return true
+		}
+		if !strings.HasSuffix(norm(sel.X), ".zero") {
+			return true
+		}
+		key := "wg_" + name + "_" + sel.Sel.Name
+		consts[key] = "unguarded"
+		for i := len(stack) - 2; i >= 0; i-- {
+			switch x := stack[i].(type) {
+			case *ast.ForStmt:
+				if sel.Sel.Name == "Wait" {
+					c := "true"
+					if x.Cond != nil {
+						c = norm(x.Cond)
+					}
+					consts[key] = "for " + c
+					return true
+				}
+			case *ast.IfStmt:
+				if sel.Sel.Name != "Wait" {
+					consts[key] = "if " + norm(x.Cond)
+					return true
+				}
+				if consts[key] == "unguarded" {
+					consts[key] = "if " + norm(x.Cond) // a Wait under an if, not (yet) under a for
+				}
+			}
+		}
+		return true
+	})
+}
+
 func isDoneKind(k string) bool { return k == "KDone" || k == "KCtxDone" || k == "KBsOk" }
 
 func main() {
@@ -174,6 +244,9 @@ func main() {
 			recv, name := recvName(fd), fd.Name.Name
 			if recv == "heapManager" && name != "run" {
 				hmShapes = append(hmShapes, [2]string{name, hmShape(fd)})
+			}
+			if recv == "barWaitGroup" {
+				wgShape(fd, consts)
 			}
 			depth := 0
 			var walk func(n ast.Node) bool
@@ -284,6 +357,9 @@ func main() {
 	}
 	fmt.Fprintf(&b, "(* rows kept on a terminal = reported height + this *)\nDefinition gen_terminal_height_adjust : Z := (%s)%%Z.\n", adj)
 	fmt.Fprintf(&b, "Definition gen_default_refresh_rate : string := %q.\n", consts["defaultRefreshRate"])
+	b.WriteString("(* bar_wait_group.go: first statement of Add and of Wait, guard of the Broadcast in Add, loop around cond.Wait in Wait *)\n")
+	fmt.Fprintf(&b, "Definition gen_wait_group : list (string * string) := [(\"Add first\", %q); (\"Wait first\", %q); (\"Add Broadcast\", %q); (\"Wait Wait\", %q)].\n",
+		consts["wg_Add_first"], consts["wg_Wait_first"], consts["wg_Add_Broadcast"], consts["wg_Wait_Wait"])
 	if old, err := os.ReadFile(out); err == nil && string(old) == b.String() {
 		return // unchanged: keep the timestamp so that nothing is rebuilt
 	}
